@@ -421,7 +421,7 @@ def gen(rng, n, tier):
     for first in range(256):
         ops.append("fuzz " + hexs(bytes([first]) + rbytes(rng, rng.choice([0, 16, 19, 40, 60]))))
     ops.append("fuzz -")
-    nf = max(n // 2, 1) * (40 if thorough else 1)
+    nf = 400000 if thorough else 10000          # x 8 decoders each
     for i in range(nf):
         if i % 2 == 0:
             b = structured_bytes(rng)
